@@ -7,8 +7,9 @@
    Part 3  ServiceCheck.__check__ as a timed state machine on a Z clock (TTL cache, single-flight
            latch, DeadlineWrapper timer), plus the timed runner used by the correspondence runs
 
-   Constants, the decision chain of _status and the structural switches come from Gen.FactsC19, which
-   is regenerated from /repo on every run.  Status codes there: True = 1, False = 0, None = 2. *)
+   The aggregate table, the answers for unregistered / empty services and the behavioural switches come
+   from Gen.FactsC19, which is regenerated on every run by PROBING the code in /repo (tools/facts_C19.py).
+   Status codes there: True = 1, False = 0, None = 2. *)
 From Coq Require Import ZArith List Bool.
 From GV Require Import Gen.FactsC19.
 Import ListNotations.
@@ -39,29 +40,29 @@ Definition resp_code (r : resp) : Z :=
   match r with R_UNKNOWN => 0 | R_SERVING => 1 | R_NOT_SERVING => 2 | R_SERVICE_UNKNOWN => 3
              | R_INVALID n => n end.
 
-(* a Python set of status codes: a duplicate-free list; equality is mutual inclusion *)
-Fixpoint zmem (x : Z) (l : list Z) : bool :=
-  match l with [] => false | y :: r => (x =? y) || zmem x r end.
+(* the Python set {check.__status__() for check in checks}, as its characteristic vector over
+   {True, False, None}: (has True, has False, has None) *)
+Definition has (v : st) (l : list st) : bool := existsb (st_eqb v) l.
+Definition sig_of (l : list st) : bool * bool * bool := (has STrue l, has SFalse l, has SNone l).
 
-Fixpoint mk_set (l : list Z) : list Z :=
-  match l with
-  | [] => []
-  | x :: r => let s := mk_set r in if zmem x s then s else x :: s
+Definition sig_eqb (a b : bool * bool * bool) : bool :=
+  match a, b with (a1, a2, a3), (b1, b2, b3) => Bool.eqb a1 b1 && Bool.eqb a2 b2 && Bool.eqb a3 b3 end.
+
+Fixpoint table_lookup (sg : bool * bool * bool) (t : list ((bool * bool * bool) * Z)) : Z :=
+  match t with
+  | [] => -1
+  | (k, r) :: rest => if sig_eqb sg k then r else table_lookup sg rest
   end.
 
-Definition set_eq (a b : list Z) : bool :=
-  forallb (fun x => zmem x b) a && forallb (fun x => zmem x a) b.
-
-(* if statuses == lit1: return r1 elif statuses == lit2: return r2 ... else: return dflt *)
-Fixpoint eval_chain (s : list Z) (chain : list (list Z * Z)) (dflt : Z) : Z :=
-  match chain with
-  | [] => dflt
-  | (lit, r) :: rest => if set_eq s lit then r else eval_chain s rest dflt
-  end.
-
-(* _status(checks) where l lists check.__status__() for the checks of the service (any order) *)
+(* the aggregate of the statuses l of the checks of a service (any order, any multiplicity): what Health
+   answers for that non-empty set of statuses, as observed on the code (Gen.FactsC19.status_table).
+   Health never aggregates an empty collection (a service without checks is answered SERVING before);
+   the model value for [] is arbitrary and chosen as NOT_SERVING. *)
 Definition agg_status (l : list st) : resp :=
-  resp_of_Z (eval_chain (mk_set (map st_code l)) status_chain status_else).
+  match l with
+  | [] => R_NOT_SERVING
+  | _ => resp_of_Z (table_lookup (sig_of l) status_table)
+  end.
 
 (* ---- Health.__init__ : service name -> set of check ids; name 0 is OVERALL ('') *)
 Definition registry := list (Z * list nat).
@@ -216,7 +217,7 @@ Definition local_step (vals : list st) (op : lop) (w : watcher) : watcher :=
     if pc_eqb (w_pc w) PWaiting && wait_returns (w_slots w)
     then mkW PWaking (w_slow w) (w_slots w) (w_sent w) else w
   | LRunW =>
-    if pc_eqb (w_pc w) PWaking then
+    if pc_eqb (w_pc w) PWaking && watch_segment_atomic then
       let sls := map (reset_slot vals) (w_slots w) in
       mkW (if w_slow w then PSending else PWaiting) (w_slow w) sls (cur_status vals sls :: w_sent w)
     else w
